@@ -200,6 +200,8 @@ def r4_r5(ctx):
 
 
 def run(ctx):
+    from . import C07
+    C07.r1_port_dependence(ctx)    # a domain-typed initial request is resolved through the same cache: the port is the requested one, not a cached one
     r1_prefix_agreement(ctx)
     r3_one_to_one(ctx)
     r6_reply_peer(ctx)
